@@ -69,6 +69,47 @@ def gc_history(rng, n):
     return ",".join(ops), exp_final
 
 
+BOUNDARY_INTS = [0, 1, -1, 9, 10, -10, 255, 256, 65535, 2147483647, -2147483648, 4294967296, 999999999999999999, 1000000000000000000,
+                 -999999999999999999, -1000000000000000000, 9223372036854775807, -9223372036854775807]
+
+
+def nano_int(v):
+    return str(v) if v >= 0 else "(- 0 %d)" % (-v)
+
+
+def stdlib_edge_programs(rng, n):
+    """Generated-runtime helpers (src/stdlib_runtime.c is emitted into every native program) at boundary arguments:
+    widest integers through every int->string path, string slicing at and just inside the ends, array helpers on full
+    capacity arrays.  Every call is within its documented precondition."""
+    out = []
+    for _ in range(n):
+        vals = rng.sample(BOUNDARY_INTS, 6) + [-9223372036854775807 - 1]
+        body = []
+        for i, v in enumerate(vals):
+            e = nano_int(v) if v != -9223372036854775807 - 1 else "(- (- 0 9223372036854775807) 1)"
+            body.append("    let v%d: int = %s" % (i, e))
+            body.append("    let s%d: string = (int_to_string v%d)" % (i, i))
+            body.append("    (println s%d)" % i)
+            body.append("    (println (str_length s%d))" % i)
+            body.append("    (println (+ (+ \"<\" (int_to_string v%d)) \">\"))" % i)
+            body.append("    (println (str_substring s%d 0 (str_length s%d)))" % (i, i))
+            body.append("    (println (str_substring s%d (- (str_length s%d) 1) 1))" % (i, i))
+            body.append("    (println (str_contains s%d \"9\"))" % i)
+        ncap = rng.choice([4, 8, 16, 32])
+        body.append("    let mut a: array<int> = []")
+        body.append("    for i in (range 0 %d) {\n        set a (array_push a (* i i))\n    }" % ncap)
+        body.append("    set a (array_remove_at a %d)" % rng.randrange(ncap - 1))
+        body.append("    (println (array_length a))")
+        body.append("    (println (at a (- (array_length a) 1)))")
+        body.append("    let b: array<int> = (array_slice a 0 (array_length a))")
+        body.append("    (println (array_length b))")
+        body.append("    let mut t: string = \"\"")
+        body.append("    for i in (range 0 %d) {\n        set t (+ t (int_to_string (- 0 i)))\n    }" % rng.choice([3, 17, 64]))
+        body.append("    (println (str_length t))")
+        out.append("fn main() -> int {\n" + "\n".join(body) + "\n    return 0\n}\nshadow main { assert (== 1 1) }\n")
+    return out
+
+
 def san_run(args):
     tdir, td, k, src, cc = args
     p = os.path.join(td, "s%d.nano" % k)
@@ -86,7 +127,9 @@ def san_run(args):
                            env=dict(os.environ, ASAN_OPTIONS="detect_leaks=0:abort_on_error=0", UBSAN_OPTIONS="halt_on_error=1:print_stacktrace=0"))
     except subprocess.TimeoutExpired:
         return ("run-timeout", "", "")
-    return (r.returncode, r.stdout.decode(errors="replace")[-200:], r.stderr.decode(errors="replace")[-1500:])
+    err = r.stderr.decode(errors="replace")
+    hit = [l for l in err.splitlines() if "AddressSanitizer" in l or "runtime error:" in l or "LeakSanitizer" in l]
+    return (r.returncode, r.stdout.decode(errors="replace")[-200:], "\n".join(hit[:3]) + "\n" + err[:1200])
 
 
 def run(ctx):
@@ -130,6 +173,7 @@ def run(ctx):
         text, flags = gen_prog.gen(random.Random(ctx.seed * 31337 + k), size=1.5)
         srcs.append(text)
     srcs.append("fn main() -> int {\n    let a: int = 9223372036854775807\n    let b: int = (+ a 1)\n    (println b)\n    (println (* a 3))\n    (println (- (- 0 a) 2))\n    return 0\n}\nshadow main { assert (== 1 1) }\n")
+    srcs += stdlib_edge_programs(rng, 2 if quick else 12)
     with tempfile.TemporaryDirectory(prefix="nvc20", dir="/var/tmp") as td:
         cc = os.path.join(td, "sancc")
         open(cc, "w").write("#!/bin/sh\nexec clang-14 -fsanitize=address,undefined -fno-sanitize-recover=undefined -fno-omit-frame-pointer -Wno-error \"$@\"\n")
